@@ -155,6 +155,29 @@ def direct_case(case):
     return r
 
 
+
+# ------------------------------------------------------------------------------------------------
+# family 1b: a live prior whose bounds are changed after it has already been sampled
+# ------------------------------------------------------------------------------------------------
+def rebound_case(case):
+    """sample -> set_bounds(new) -> sample on ONE prior object, for every ordered pair of bound letters: after the
+    change the prior must be indistinguishable from one constructed with the new bounds."""
+    r = core.R(case)
+    fx.reset_caches()
+    cls = case['cls']
+    p = klass(cls)(bounds=list(case['first']))
+    for u in U:
+        p.sample(u)
+    p.boundaries()
+    p.params()
+    p.set_bounds(list(case['second']))
+    tag = 'rebound/%s/%s' % (cls, order_of({'bounds': case['second']}))
+    check_prior(r, p, ref.from_spec(cls, {'bounds': case['second']}), tag)
+    same(r, p, klass(cls)(bounds=list(case['second'])), 'rebound-equals-fresh', tag)
+    r.nontrivial = True
+    return r
+
+
 # ------------------------------------------------------------------------------------------------
 # family 2: lin_* arguments == their log10
 # ------------------------------------------------------------------------------------------------
@@ -421,6 +444,9 @@ def explore(ctx):
         for s in STDS:
             direct.append({'cls': cls, 'kw': {'std': s}})
     ctx.run_cases('direct_case', direct, phase='direct')
+    reb = [{'cls': cls, 'first': a, 'second': b} for cls in ('Uniform', 'LogUniform')
+           for a in bpairs[::3] for b in bpairs if a != b]
+    ctx.run_cases('rebound_case', reb, phase='rebound')
 
     # 2. lin_* == log10
     lin = [{'cls': 'LogUniform', 'kw': {'lin_bounds': b}} for b in lpairs]
